@@ -11,6 +11,8 @@ pub enum World {
     Sub(Box<World>, u32, Vec<u32>),
     /// from_standard (false) / from_standard_transitive (true) on a directory with the three files
     Jax { transitive: bool, obo: Vec<u8>, genes: Vec<u8>, hpoa: Vec<u8> },
+    /// the script with `count` add_* calls (tag 0/1/2, ids first..) after connect_all_terms
+    Bulk(Script, u8, u32, u32),
 }
 
 pub struct Built {
@@ -23,6 +25,7 @@ impl World {
         match self {
             World::Builder(s) => V::C("WBuilder", vec![s.to_v()]),
             World::Bytes(b) => V::C("WBytes", vec![crate::v::bytes(b)]),
+            World::Bulk(s, tag, first, count) => V::C("WBulk", vec![s.to_v(), crate::v::n(u32::from(*tag)), crate::v::n(*first), crate::v::n(*count)]),
             World::Sub(w, root, leaves) => V::C("WSub", vec![w.to_v(), crate::v::n(*root), crate::v::ln(leaves)]),
             World::Jax { transitive, obo, genes, hpoa } => V::C(
                 "WJax",
@@ -34,6 +37,7 @@ impl World {
     pub fn build(&self) -> Option<Built> {
         match self {
             World::Builder(s) => build::run(s).map(|(codes, result)| Built { codes, result }),
+            World::Bulk(s, tag, first, count) => build::run_bulk(s, Some((*tag, *first, *count))).map(|(codes, result)| Built { codes, result }),
             World::Bytes(b) => crate::catch(std::panic::AssertUnwindSafe(|| Ontology::from_bytes(b))).map(|result| Built { codes: vec![], result }),
             World::Jax { transitive, obo, genes, hpoa } => {
                 static COUNTER: std::sync::atomic::AtomicU64 = std::sync::atomic::AtomicU64::new(0);
